@@ -9,3 +9,34 @@ def c05(repo, rep):
 
 
 PROPS = {"C05": c05}
+
+
+def c19(repo, rep):
+    from .rules import effects
+    effects.r5(repo, rep)
+
+PROPS["C19"] = c19
+
+
+def c16(repo, rep):
+    from .rules import listdict
+    listdict.r12(repo, rep)
+
+PROPS["C16"] = c16
+
+
+def c18(repo, rep):
+    from .rules import simrules as S
+    S.r7a(repo, rep)
+    S.r7b(repo, rep)
+    S.r7c(repo, rep)
+
+PROPS["C18"] = c18
+
+
+def _c04_tmp(repo, rep):
+    from .rules import simrules as S
+    S.r13(repo, rep)
+    S.r17(repo, rep)
+
+PROPS["C04"] = _c04_tmp
